@@ -130,8 +130,6 @@ structure FSt where
   /-- frame types written on the own control stream -/
   ctlFrames : List Nat := []
   hist : List String := []
-  /-- `shutdown()` answered `Ok(())` although the connection's error had been reported (D-05s) -/
-  d05s : Bool := false
   /-- engine `flt5`: the history is judged for C05 (`shutdown` must report the error too) -/
   strict : Bool := false
   /-- commands posted while the task is busy (a pending `build` or, on a server, a pending `accept`) -/
@@ -195,19 +193,19 @@ def pollBuild (s : FSt) (b : BSt) : FSt :=
 
 /-- the GOAWAY write; `none` = the write is pending (not supported here) -/
 def shutdownCall (s : FSt) : FSt × Option (Option CErr) :=
-  if s.sentClosing then
-    let (d, r) := shutdownEntry s.drv true none
-    ({ s with drv := d }, some r)
-  else
-  let s := { s with sentClosing := true }
-  let (n1, w, _) := pollWrite netTr s.net 0 .start
-  let s := ({ s with net := n1 } : FSt).flush
-  match w with
-  | .done r =>
-    let (d, c) := shutdownEntry s.drv false r
-    let s := if r.isNone then { s with ctlFrames := s.ctlFrames ++ [7] } else s
-    (s.setDrv d, some c)
-  | _ => ({ s with unsupported := true }, none)
+  match shutdownPlan s.drv s.sentClosing with
+  | .report h => (s, some (some h))          -- `check_connection_error()?`
+  | .nothing => (s, some none)
+  | .write =>
+    let s := { s with sentClosing := true }
+    let (n1, w, _) := pollWrite netTr s.net 0 .start
+    let s := ({ s with net := n1 } : FSt).flush
+    match w with
+    | .done r =>
+      let (d, c) := shutdownWrite s.drv r
+      let s := if r.isNone then { s with ctlFrames := s.ctlFrames ++ [7] } else s
+      (s.setDrv d, some c)
+    | _ => ({ s with unsupported := true }, none)
 
 /-! ### one poll of the role's driver -/
 
@@ -352,7 +350,6 @@ def apiOp (s : FSt) (cmd : String) : FSt :=
   else if c == "S" then
     match shutdownCall s with
     | (s1, some r) =>
-      let s1 := { s1 with d05s := s1.d05s || (r.isNone && s.drv.handled.isSome) }
       let s2 := s1.say s!"{s.taskName}.S={(r.map renderErr).getD "ok"}"
       -- client: `select(wait_idle, next command)`: the driver future is dropped and started again
       pollIfInflight s2
@@ -453,9 +450,8 @@ def render (s : FSt) : String :=
   if s.unsupported || s.sys.unsupported || s.sys.panic then "unsupported ## ?" else
   let pend := s!"pending=[{pendingOf s}]"
   let v := H3.Spec.Faults.verdict s.rc.server s.rc.grease s.strict (s.hist ++ [pend])
-  let tag := if s.d05s then " #D-05s" else ""
   let uni := s.net.uniOpened + (if s.sys.gs.step != .notStarted then 1 else 0)
-  s!"{v} {" ".intercalate s.hist} | uni={uni} ctl={dotted s.ctlFrames} g={gName s} {pend}{tag} ## ok **"
+  s!"{v} {" ".intercalate s.hist} | uni={uni} ctl={dotted s.ctlFrames} g={gName s} {pend} ## ok **"
 
 /-- cfg of an `flt` line: `g0|g1`, `hold=1` (required), `ev=1`, `ops=1`, `seed=…`, `uc=<n>`, `wc=0` -/
 def parseCfg (server : Bool) (s : String) : Option (C04.RunCfg × Bool) :=
